@@ -86,6 +86,13 @@ def run(tier, seed):
             scn["Z"] = (__import__("numpy").array(scn["Z"]) * (0.01, 0.002, 0.0005)[i % 3]).tolist()
         scn["alt_modes"] = True
         items.append(scn)
+    # the same relations in other physical units: an exact power-of-two rescaling of the features changes no comparison between two
+    # distances, whatever their absolute size (squared distances of 1e-22 are as distinct as those of 1e+3)
+    rng4 = random.Random(seed * 1000003 + 1102)
+    for scn in S.extreme_unit_scenarios(rng4, 160 if thorough else 48, nq=4, metrics=("squared_euclidean", "euclidean", "average_euclidean", "squared_euclidean", "log_squared_euclidean"),
+                                        scales=(2.0 ** -37, 2.0 ** -36, 2.0 ** -20, 2.0 ** 30, 2.0 ** -38, 2.0 ** -35, 1e-11)):
+        scn["alt_modes"] = True
+        items.append(scn)
     judged = []
     for scn in items:
         base, why = S.run_scenario(scn)
